@@ -740,7 +740,9 @@ fn uow_report(plan: &Value, check: fn(&[UEv]) -> Option<Violation>) -> Report {
         st.insert(mix(detsim::rng::hash_str(&format!("{:?}", std::mem::discriminant(&e.k))), dropped.min(8) << 8 | (m.appends.first().map(|a| a.0 < e.seq).unwrap_or(false) as u64)));
     }
     r.states = st.into_iter().collect();
-    r.violation = check(&h);
+    if !matches!(failure, Some(detsim::Failure::StepLimit { .. })) {
+        r.violation = check(&h);
+    }
     r.sample = Some(json!({"main_ops": plan.get("main_ops"), "droppers": plan.get("droppers"), "history": h.iter().take(60).map(|e| format!("#{} t{} {:?}", e.seq, e.tid, e.k)).collect::<Vec<_>>()}));
     if r.violation.is_none() {
         match failure {
